@@ -52,17 +52,17 @@ def run(ctx):
                 lenient += 1
             cls = classify(tx)
             if o.get("panic"):
-                ctx.violation("txsig:panic:%s" % cls, {"row": r, "got": o}, replay={"kind": "c39-row", "row": r})
+                _viol(ctx, "txsig:panic:%s" % cls, {"row": r, "got": o}, replay={"kind": "c39-row", "row": r})
                 continue
             if o["acc"] not in allowed:
                 kind = "accepted-but-spec-rejects" if o["acc"] else "rejected-but-spec-accepts"
-                ctx.violation("txsig:%s:%s" % (kind, cls), {"row": r, "got": o}, replay={"kind": "c39-row", "row": r})
+                _viol(ctx, "txsig:%s:%s" % (kind, cls), {"row": r, "got": o}, replay={"kind": "c39-row", "row": r})
                 continue
             if o["acc"]:
                 if o["signed"] != o["expected"]:
-                    ctx.violation("txsig:signed-addresses-differ:%s" % cls, {"row": r, "got": o}, replay={"kind": "c39-row", "row": r})
+                    _viol(ctx, "txsig:signed-addresses-differ:%s" % cls, {"row": r, "got": o}, replay={"kind": "c39-row", "row": r})
                 if o.get("derErr") or o["derived"] != o["expected"]:
-                    ctx.violation("txsig:derived-addresses-differ:%s" % cls, {"row": r, "got": o}, replay={"kind": "c39-row", "row": r})
+                    _viol(ctx, "txsig:derived-addresses-differ:%s" % cls, {"row": r, "got": o}, replay={"kind": "c39-row", "row": r})
         if rep == 0:
             ctx.sample({"row": rows[len(rows) // 2], "observed": res[len(rows) // 2]})
             ctx.sample({"row": rows[-3], "observed": {k: res[-3][k] for k in ("acc", "code", "wire")}})
@@ -95,3 +95,15 @@ def classify(tx):
         rep = "dupkeys" if len(set(e["keys"])) < n else "keys"
         parts.append("%d%s-m%d-sigs%d%s" % (n, rep, m, len(s), "-bad" if 0 in s[:max(m, 1)] else ""))
     return "|".join(parts) + ("|..." if len(tx) > 3 else "")
+
+
+_MAXV = 20
+
+
+def _viol(ctx, key, detail, replay=None):
+    """at most _MAXV distinct violation records per run (every further one is only counted)"""
+    if len(ctx.violations) >= _MAXV and key not in [v[0] for v in ctx.violations] and not any(
+            k.get("status") == "known" and (k["key"] == key or (k["key"].endswith("*") and key.startswith(k["key"][:-1]))) for k in ctx.known):
+        ctx.cov["violations_not_recorded"] = ctx.cov.get("violations_not_recorded", 0) + 1
+        return True
+    return ctx.violation(key, detail, replay=replay)
